@@ -365,6 +365,19 @@ struct Tally {
     evaluations: usize,
     circuit_evals: usize,
     distinct_rows: usize,
+    log_per_kind: std::collections::BTreeMap<String, usize>,
+    /// hashes of the distinct (gate, constants, hash, row) tuples evaluated on gates with constraints
+    distinct: std::collections::HashSet<u64>,
+}
+
+fn case_hash(id: &str, consts: &[F], h: &HashOut<F>, row: &[F]) -> u64 {
+    use std::hash::{Hash, Hasher};
+    let mut s = std::collections::hash_map::DefaultHasher::new();
+    id.hash(&mut s);
+    for x in consts.iter().chain(h.elements.iter()).chain(row.iter()) {
+        x.to_canonical_u64().hash(&mut s);
+    }
+    s.finish()
 }
 
 fn push_cap(v: &mut Vec<Value>, x: Value) {
@@ -374,6 +387,7 @@ fn push_cap(v: &mut Vec<Value>, x: Value) {
 }
 
 fn check_entry(e: &Value, idx: usize, o: &Opts, log: &mut Option<NdJson>, tally: &mut Tally) -> Value {
+    let per_kind_cap = (o.log_budget / 8).max(2);
     let g = &e["gate"];
     let kind = g["kind"].as_str().unwrap_or("").to_string();
     let mut drift: Vec<Value> = vec![];
@@ -634,7 +648,10 @@ fn check_entry(e: &Value, idx: usize, o: &Opts, log: &mut Option<NdJson>, tally:
         if let Some(l) = log.as_mut() {
             let cheap = matches!(kind.as_str(), "arith" | "basesum" | "constant" | "pi" | "ra" | "reducing" | "expo" | "mulext");
             let small = nw <= 24 && ncon <= 16;
-            if cheap && small && l.n < o.log_budget && r < 3 {
+            let used = tally.log_per_kind.entry(kind.clone()).or_insert(0usize);
+            // spread the per-kind budget over the parameterisations (one row each while it lasts)
+            if cheap && small && *used < per_kind_cap && r == idx % 3 {
+                *used += 2;
                 for k in [0usize, 1 + (r * 7) % (rows.len() - 1).max(1)] {
                     if k < rows.len() && !ext_vals[k].is_empty() {
                         l.put(&json!({"kind": kind, "g": g, "c": fls(&consts), "h": fls(&h.elements), "w": fls(&rows[k]),
@@ -644,6 +661,12 @@ fn check_entry(e: &Value, idx: usize, o: &Opts, log: &mut Option<NdJson>, tally:
             }
         }
         tally.distinct_rows += rows.len();
+        if ncon > 0 {
+            let id = gate.0.id();
+            for rr in &rows {
+                tally.distinct.insert(case_hash(&id, &consts, &h, rr));
+            }
+        }
     }
     if delegated && o.sabotage {
         // nothing to sabotage on gates without constraints
@@ -664,6 +687,7 @@ fn cmd_gates(args: &[String]) -> anyhow::Result<()> {
     };
     let every = opt_usize(args, "--circuit-every", 1);
     let only = opt(args, "--only");
+    let idx_base = opt_usize(args, "--idx-base", 0);
     let mut log = match opt(args, "--log") {
         Some(p) => Some(NdJson::create(p)?),
         None => None,
@@ -683,7 +707,8 @@ fn cmd_gates(args: &[String]) -> anyhow::Result<()> {
             }
         }
         let oo = Opts { circuit: o.circuit && idx % every == 0, ..Opts { rows: o.rows, circuit_rows: o.circuit_rows, circuit: o.circuit, sabotage: o.sabotage, log_budget: o.log_budget } };
-        let res = check_entry(&e, idx, &oo, &mut log, &mut tally);
+        let mut res = check_entry(&e, idx_base + idx, &oo, &mut log, &mut tally);
+        res["idx"] = json!(idx_base + idx);
         n += 1;
         results.push(res);
     }
@@ -692,13 +717,47 @@ fn cmd_gates(args: &[String]) -> anyhow::Result<()> {
     }
     let events = log.map(|l| l.finish()).unwrap_or(0);
     emit(&json!({"summary": true, "entries": n, "honest_rows": tally.honest_rows, "perturbations": tally.perturbations,
-                 "evaluations": tally.evaluations, "circuit_evals": tally.circuit_evals, "rows_evaluated": tally.distinct_rows, "log_events": events}));
+                 "evaluations": tally.evaluations, "circuit_evals": tally.circuit_evals, "rows_evaluated": tally.distinct_rows, "distinct_nontrivial": tally.distinct.len(), "log_events": events}));
+    Ok(())
+}
+
+/// degenerate parameterisations the library itself never instantiates (zero operations / bits /
+/// limbs): what the gate methods do there is recorded as information, not judged
+fn cmd_edge() -> anyhow::Result<()> {
+    let probes = vec![
+        json!({"kind": "arith", "n": 0}), json!({"kind": "arithext", "n": 0}), json!({"kind": "mulext", "n": 0}),
+        json!({"kind": "basesum", "b": 2, "l": 0}), json!({"kind": "constant", "n": 0}), json!({"kind": "expo", "n": 0}),
+        json!({"kind": "reducing", "n": 0}), json!({"kind": "reducingext", "n": 0}), json!({"kind": "coset", "bits": 0, "deg": 2}),
+        json!({"kind": "basesum", "b": 2, "l": 64}), json!({"kind": "expo", "n": 64}),
+    ];
+    let mut out = vec![];
+    for g in probes {
+        let res = guarded(|| -> Result<Value, String> {
+            let gate = make_gate(&g)?;
+            let nw = gate.0.num_wires();
+            let ncon = gate.0.num_constraints();
+            if nw > 100_000 {
+                return Ok(json!({"num_wires": nw, "num_constraints": ncon, "note": "num_wires wrapped around"}));
+            }
+            let h = HashOut { elements: [F::ZERO; 4] };
+            let ev = gate.0.eval_unfiltered(EvaluationVars { local_constants: &vec![FE::ZERO; gate.0.num_constants()],
+                                                              local_wires: &vec![FE::ZERO; nw], public_inputs_hash: &h });
+            Ok(json!({"num_wires": nw, "num_constraints": ncon, "returned": ev.len()}))
+        });
+        out.push(match res {
+            Ok(Ok(v)) => json!({"gate": g, "outcome": v}),
+            Ok(Err(m)) => json!({"gate": g, "outcome": {"error": m}}),
+            Err(p) => json!({"gate": g, "outcome": {"panic": p}}),
+        });
+    }
+    emit(&json!({"edge_probes": out}));
     Ok(())
 }
 
 fn main() -> std::process::ExitCode {
     run_main(|cmd, args| match cmd {
         "gates" => cmd_gates(args),
+        "edge" => cmd_edge(),
         _ => anyhow::bail!("unknown command {cmd}"),
     })
 }
